@@ -481,5 +481,5 @@ TECHNIQUE = "Lean 4 theorems by structural induction on Rose about the traversal
 LEVEL_TEXT = ("Kernel-checked for every tree shape: the branches returned by the model of get_branches (incl. the stem of a one-child root) list every "
               "parent–child edge exactly once, start at the root or a furcation, end at a furcation or tip and pass only through one-child nodes; one path per tip; "
               "tips/furcations are the childless / multi-child nodes; the branch tree keeps exactly root, furcations and tips.")
-LEVEL_NOTE = "Trusted: Lean kernel; the imperative translator and its semantics library Model/Py.lean (a Node is its id, a Tree.Branch the list of its node ids; cross-checked by running the generated methods); get_paths as a whole, get_tips and BranchTree.from_tree tied by correspondence; numpy setdiff1d / fancy indexing."
+LEVEL_NOTE = "Trusted: Lean kernel; the imperative translator and its semantics library Model/Py.lean (a Node is its id, a Tree.Branch the list of its node ids; cross-checked by running the generated methods); get_paths as a whole tied by correspondence; BranchTree.from_tree is translated at the topology level (Gen/AlgoBranchTree.lean; glue: the per-column gather by id_map, the constructor call, br.detach() — design_notes/session4/branchtree.md) and proved equal to Model/BranchTree.lean on every tree; numpy setdiff1d / nonzero / fancy indexing."
 
